@@ -19,6 +19,7 @@ VF_DECL(ga_) VF_DECL(gb_)
 extern uint32_t vf_plc[2][VF_MAXLOG];
 extern int32_t vf_pla[2][VF_MAXLOG];
 extern int vf_pn[2];
+extern int32_t vf_pthrow[2];
 extern uint8_t vf_gv[32];
 extern uint32_t vf_gmask;
 extern int vf_in_prefix;
